@@ -745,7 +745,7 @@ def load_corpus():
     return out
 
 
-CLAUSE_PRIORITY = ["indirect_assign_default_assigns_reference", "indirect_positional_slice_without_argv0",
+CLAUSE_PRIORITY = ["indirect_assign_element_target_accepted", "indirect_positional_slice_without_argv0",
                    "extglob_negation_not_complement", "substring_negative_length", "length_counts_bytes", "shortest_match_skips_empty",
                    "pattern_anchors_at_newlines", "all_null_elements_count_as_null",
                    "at_alternative_on_empty_list_keeps_field"]
